@@ -11,7 +11,7 @@ RULE = ("rule-based state machine over the real module globals (guard, error-sup
         "lazy if_then_else branches whose bodies do traced work, recurse, and raise a sentinel exception (an Exception subclass, a BaseException subclass, "
         "KeyboardInterrupt, SystemExit, GeneratorExit or StopIteration) at a chosen statement (caught at a chosen ancestor level), walk an if/elif/else or while block context through "
         "enter/elif/else/exit - also ill-formed blocks whose closing statement raises while merging (variable set in one branch "
-        "only, unmergeable value) -, leave an _if/_while block open when a region ends, and attempt invalid entries (constant 0, non-boolean value, wrong type) that must raise "
+        "only, unmergeable value) -, leave an _if/_while block open when a region ends, call a guarded GENERATOR function and consume the generator step by step in later steps (alone or two in lockstep: creating it ends the region), call a guarded function with positional, star and keyword arguments (handed through, result returned as is), and attempt invalid entries (constant 0, non-boolean value, wrong type) that must raise "
         "and change nothing. Invariant after every step: guard is None iff no secret condition is active; guard.value == "
         "AND of the active conditions and equals its wire expression on the recorded witness; error suppression == base "
         "flag OR some active condition is 0; LinComb.ONE is the guard inside and the safe constant outside; the constant "
@@ -55,6 +55,7 @@ def make_machine(stats):
             self.false_under_true = False
             self.leaked = []
             self.block_fault = False
+            self.gens = []
 
         # -- helpers
         def active(self):
@@ -360,6 +361,72 @@ def make_machine(stats):
             if any(a is not b_ for a, b_ in zip(before, self.triple())):
                 self.fail("guard state after an _if containing a short loop (%s) is not the state before it" % kind)
 
+        @rule(v=st.integers(0, 1), form=st.sampled_from(["lc", "bool", "int1"]), n=st.integers(0, 3), first=st.integers(0, 2))
+        def gen_start(self, v, form, n, first):
+            """a generator function decorated with guarded(cond): the decorated call returns (the region has ended) as soon as
+            the generator object exists; consuming it, now or in later steps, happens in whatever state is active then"""
+            self.hist.append(["gen_start", v, form, n, first])
+            rt = self.rt
+            before = self.triple()
+
+            def produce(k, scale=1):
+                for i in range(k):
+                    yield rt.PrivVal(i) * scale
+                return k
+            g = rt.guarded(self.mkcond(v, form))(produce)(n, scale=2)
+            if any(a is not b for a, b in zip(before, self.triple())):
+                self.fail("guard state after calling a guarded generator function is not the state before the call")
+            self.gens.append(g)
+            for _ in range(first):
+                self.advance(g)
+
+        def advance(self, g):
+            before = self.triple()
+            try:
+                x = next(g)
+                if x.value % 2:
+                    self.fail("a guarded generator function did not receive its keyword argument")
+            except StopIteration:
+                if g in self.gens:
+                    self.gens.remove(g)
+            if any(a is not b for a, b in zip(before, self.triple())):
+                self.fail("guard state after taking one item from a generator made by a guarded function is not the state before it")
+
+        @precondition(lambda self: len(self.gens) > 0)
+        @rule(k=st.integers(0, 5), lockstep=st.booleans())
+        def gen_step(self, k, lockstep):
+            self.hist.append(["gen_step", k, lockstep])
+            if lockstep and len(self.gens) >= 2:
+                a, b = self.gens[k % len(self.gens)], self.gens[(k + 1) % len(self.gens)]
+                before = self.triple()
+                for _ in zip(a, b):
+                    pass
+                for g in (a, b):
+                    try:
+                        next(g)
+                    except StopIteration:
+                        if g in self.gens:
+                            self.gens.remove(g)
+                if any(x is not y for x, y in zip(before, self.triple())):
+                    self.fail("guard state after consuming two guarded generators in lockstep is not the state before it")
+                return
+            self.advance(self.gens[k % len(self.gens)])
+
+        @rule(v=st.integers(0, 1), form=st.sampled_from(["lc", "bool", "int1"]), a=st.integers(-3, 3), extra=st.lists(st.integers(0, 3), max_size=2))
+        def call_args(self, v, form, a, extra):
+            """the decorator hands positional, keyword and star arguments through and returns the function's own result"""
+            self.hist.append(["call_args", v, form, a, extra])
+            before = self.triple()
+            marker = object()
+
+            def fn(x, *rest, key=None, **kw):
+                return (x, rest, key, kw, marker)
+            got = self.rt.guarded(self.mkcond(v, form))(fn)(a, *extra, key="k", other=extra)
+            if got != (a, tuple(extra), "k", {"other": extra}, marker) or got[4] is not marker:
+                self.fail("guarded(cond)(fn)(%r, *%r, key='k', other=...) returned %r" % (a, extra, got[:4]))
+            if any(x is not y for x, y in zip(before, self.triple())):
+                self.fail("guard state after a guarded call with keyword arguments is not the state before it")
+
         # -- invariant
         def check_inside(self, extra):
             rt = self.rt
@@ -394,6 +461,8 @@ def make_machine(stats):
             self.check_inside([])
 
         def teardown(self):
+            for g in self.gens:
+                g.close()
             for bv in self.leaked:
                 del bv.stack[:]
             nt = self.exc_depth2 or self.false_under_true
